@@ -339,12 +339,20 @@ def parse_mrec(t, i):
 def run_cases(ctx, harness, cases, judge):
     """run all cases through the harness (one process per chunk) and the model; judge every record"""
     # model input
-    mlines = []; index = []
+    # the exact value depends on (input, point) only: one model evaluation serves the double, DPE and
+    # multiprecision records at that point
+    mlines = []; index = []; uniq = {}
     for ci, case in enumerate(cases):
         for ei, ev in enumerate(case["evals"]):
-            mlines.append(mline(case, ev)); index.append((ci, ei))
+            ml = mline(case, ev)
+            if ml not in uniq: uniq[ml] = len(mlines); mlines.append(ml)
+            index.append(((ci, ei), uniq[ml]))
+    judge.model_evaluations = getattr(judge, "model_evaluations", 0) + len(mlines)
+    # longest first, dealt round-robin, so that the chunks finish together
+    order = sorted(range(len(mlines)), key=lambda i: -len(mlines[i]))
     nchunk = 16
-    chunks = [mlines[i::nchunk] for i in range(nchunk)]
+    chunk_idx = [order[i::nchunk] for i in range(nchunk)]
+    chunks = [[mlines[i] for i in ch] for ch in chunk_idx]
     def run_model(lines):
         if not lines: return []
         out = ctx.run_model("eval", "\n".join(lines) + "\n")
@@ -366,9 +374,9 @@ def run_cases(ctx, harness, cases, judge):
         hres = [f.result() for f in hf]
     model = [None] * len(mlines)
     for k in range(nchunk):
-        for j, r in enumerate(mres[k]): model[k + j * nchunk] = r
+        for i, r in zip(chunk_idx[k], mres[k]): model[i] = r.split()
     model_by = {}
-    for (ci, ei), r in zip(index, model): model_by[(ci, ei)] = r.split()
+    for key, mi in index: model_by[key] = model[mi]
     for k, sub in enumerate(hchunks):
         rc, out, err = hres[k]
         if rc != 0:
@@ -470,7 +478,7 @@ def run(ctx):
         replay(ctx, harness, json.load(open(ctx.replay)))
         return ctx.finish("proof", {"evaluations": judge.evals, "replay": ctx.replay})
     quick = ctx.quick()
-    nm, nc, ns = ctx.pick((48, 16, 24), (640, 200, 300))
+    nm, nc, ns = ctx.pick((40, 12, 18), (640, 200, 300))
     cases = [gen_mono(ctx, rng, i, quick) for i in range(nm)]
     cases += [gen_cheb(ctx, rng, i, quick) for i in range(nc)]
     cases += [gen_sec(ctx, rng, i, quick) for i in range(ns)]
@@ -497,6 +505,7 @@ def run(ctx):
         "samples": judge.samples,
         "histogram": dict(sorted(judge.hist.items())),
         "inputs": len(cases),
+        "model_evaluations": getattr(judge, "model_evaluations", 0),
         "poles_reported_as_failure": judge.pole_ok,
         "no_evaluator": judge.noimpl,
         "worst_error_over_apriori_bound": {k: round(v, 6) for k, v in judge.max_ratio.items()},
